@@ -129,7 +129,11 @@ def clearlyInvalid (lib : Lib) (h : HSpec) (v : Str) : Bool :=
     !lib.utf8OK ||
     match h.format with
     | "uuid" => !(uuidShape v) || (v.any fun c => c != '-' && !isHex c)
-    | "email" => !(v.contains '@')
+    -- an addr-spec has one `@` between a local part and a domain; only a QUOTED local part may
+    -- contain further ones: without any quote, zero or several `@`, or nothing before / after it,
+    -- is no e-mail address under any reading
+    | "email" => !(v.contains '@') ||
+        (!(v.contains '"') && ((v.filter (· == '@')).length != 1 || v.head? == some '@' || v.getLast? == some '@'))
     | "date-time" => !lib.dateTimeOK
     | "date" => !lib.dateOK
     | "time" => !lib.timeOK
